@@ -259,12 +259,15 @@ func (o *snapshotter) Prepare(ctx context.Context, key, parent string, opts ...s
 		//       or not, using the key `remoteSnapshotLogKey` defined in the above. This
 		//       log is used by tests in this project.
 		lCtx := log.WithLogger(ctx, log.G(ctx).WithField("key", key).WithField("parent", parent))
+		verifCrashPoint("prepare:before-mount")
 		if err := o.prepareRemoteSnapshot(lCtx, key, base.Labels); err != nil {
 			log.G(lCtx).WithField(remoteSnapshotLogKey, prepareFailed).
 				WithError(err).Warn("failed to prepare remote snapshot")
 		} else {
 			base.Labels[remoteLabel] = remoteLabelVal // Mark this snapshot as remote
+			verifCrashPoint("prepare:after-mount")
 			err := o.commit(ctx, true, target, key, append(opts, snapshots.WithLabels(base.Labels))...)
+			verifCrashPoint("prepare:after-commit")
 			if err == nil || errdefs.IsAlreadyExists(err) {
 				// count also AlreadyExists as "success"
 				log.G(lCtx).WithField(remoteSnapshotLogKey, prepareSucceeded).Debug("prepared remote snapshot")
@@ -341,6 +344,7 @@ func (o *snapshotter) commit(ctx context.Context, isRemote bool, name, key strin
 	if _, err = storage.CommitActive(ctx, key, name, usage, opts...); err != nil {
 		return fmt.Errorf("failed to commit snapshot: %w", err)
 	}
+	verifCrashPoint("commit:before-tx")
 
 	rollback = false
 	return t.Commit()
@@ -366,6 +370,7 @@ func (o *snapshotter) Remove(ctx context.Context, key string) (err error) {
 	if err != nil {
 		return fmt.Errorf("failed to remove: %w", err)
 	}
+	verifCrashPoint("remove:meta")
 
 	if !o.asyncRemove {
 		var removals []string
@@ -381,6 +386,7 @@ func (o *snapshotter) Remove(ctx context.Context, key string) (err error) {
 		defer func() {
 			if err == nil {
 				for _, dir := range removals {
+					verifCrashPoint("remove:dir")
 					if err := o.cleanupSnapshotDirectory(ctx, dir); err != nil {
 						log.G(ctx).WithError(err).WithField("path", dir).Warn("failed to remove directory")
 					}
@@ -417,6 +423,7 @@ func (o *snapshotter) cleanup(ctx context.Context, cleanupCommitted bool) error 
 
 	log.G(ctx).Debugf("cleanup: dirs=%v", cleanup)
 	for _, dir := range cleanup {
+		verifCrashPoint("cleanup:dir")
 		if err := o.cleanupSnapshotDirectory(ctx, dir); err != nil {
 			log.G(ctx).WithError(err).WithField("path", dir).Warn("failed to remove directory")
 		}
@@ -500,6 +507,7 @@ func (o *snapshotter) cleanupSnapshotDirectory(ctx context.Context, dir string) 
 	if err := o.fs.Unmount(ctx, mp); err != nil {
 		log.G(ctx).WithError(err).WithField("dir", mp).Debug("failed to unmount")
 	}
+	verifCrashPoint("cleanupdir:unmounted")
 	if err := os.RemoveAll(dir); err != nil {
 		return fmt.Errorf("failed to remove directory %q: %w", dir, err)
 	}
@@ -537,6 +545,7 @@ func (o *snapshotter) createSnapshot(ctx context.Context, kind snapshots.Kind, k
 		}
 		return storage.Snapshot{}, fmt.Errorf("failed to create prepare snapshot dir: %w", err)
 	}
+	verifCrashPoint("create:dir")
 	rollback := true
 	defer func() {
 		if rollback {
@@ -550,6 +559,7 @@ func (o *snapshotter) createSnapshot(ctx context.Context, kind snapshots.Kind, k
 	if err != nil {
 		return storage.Snapshot{}, fmt.Errorf("failed to create snapshot: %w", err)
 	}
+	verifCrashPoint("create:meta")
 
 	if len(s.ParentIDs) > 0 {
 		st, err := os.Stat(o.upperPath(s.ParentIDs[0]))
@@ -572,11 +582,13 @@ func (o *snapshotter) createSnapshot(ctx context.Context, kind snapshots.Kind, k
 		return storage.Snapshot{}, fmt.Errorf("failed to rename: %w", err)
 	}
 	td = ""
+	verifCrashPoint("create:rename")
 
 	rollback = false
 	if err = t.Commit(); err != nil {
 		return storage.Snapshot{}, fmt.Errorf("commit failed: %w", err)
 	}
+	verifCrashPoint("create:commit")
 
 	return s, nil
 }
@@ -771,6 +783,7 @@ func (o *snapshotter) restoreRemoteSnapshot(ctx context.Context) error {
 		return err
 	}
 	for _, info := range task {
+		verifCrashPoint("restore:snapshot")
 		// First, prepare the snapshot directory
 		if err := func() error {
 			ctx, t, err := o.ms.TransactionContext(ctx, false)
